@@ -3,7 +3,7 @@ Theorems: Props/C07.v.  Correspondence: implementation vs the Coq model Matrix.v
 NumPy as the implementation takes them) for dot / inv / solve (3 operand mixes) / trace / det; model-free predicates evaluated
 with exact rational series arithmetic on the implementation output: numpy.dot / numpy.outer on object arrays of exact series
 (all rank combinations and operand mixes), A(t) inv(A)(t) = I, A(t) X(t) = B(t), Leibniz determinant, det * logdet' = det'."""
-import json, itertools
+import json, itertools, itertools
 from fractions import Fraction
 import numpy, scipy.linalg
 import lib, exact
@@ -18,6 +18,17 @@ Definition mxs_close (tol : Qc) (n m : nat) (a b : seq (mx K)) : bool :=
 """
 F = Fraction
 TOL = F(1, 2 ** 26)
+
+
+
+_LAYOUTS = itertools.cycle(['C', 'C', 'F', 'T', 'C', 'T'])
+
+
+def mkU(a):
+    """UTPM over a copy of `a` in a memory layout that cycles through C order, Fortran order and transposed trailing axes: the kernels
+    must not depend on the coefficient array being C-contiguous"""
+    import algopy
+    return algopy.UTPM(lib.relayout(numpy.array(a, copy=True), next(_LAYOUTS)))
 
 
 def dy(rng, lo=-12, hi=12, den=4):
@@ -128,13 +139,13 @@ def main(tier, seed):
         note_case('dot:' + mix, dict(meta, x=xd.tolist() if mix != 'aU' else xc.tolist(), y=yd.tolist() if mix != 'Ua' else yc.tolist()), D >= 2)
         try:
             if mix == 'UU':
-                z = algopy.dot(UTPM(xd.copy()), UTPM(yd.copy()))
+                z = algopy.dot(mkU(xd), mkU(yd))
                 ref = [numpy.dot(a, b) for a, b in zip(obj_mats(xd), obj_mats(yd))]
             elif mix == 'Ua':
-                z = algopy.dot(UTPM(xd.copy()), yc.copy())
+                z = algopy.dot(mkU(xd), yc.copy())
                 ref = [numpy.dot(a, exact.const_to_obj(yc, D)) for a in obj_mats(xd)]
             else:
-                z = algopy.dot(xc.copy(), UTPM(yd.copy()))
+                z = algopy.dot(xc.copy(), mkU(yd))
                 ref = [numpy.dot(exact.const_to_obj(xc, D), b) for b in obj_mats(yd)]
             zd = numpy.asarray(z.data)
         except Exception as e:
@@ -170,11 +181,11 @@ def main(tier, seed):
         note_case('outer:' + mix, dict(meta, x=xd.tolist(), y=yd.tolist()), D >= 2)
         try:
             if mix == 'UU':
-                z = algopy.outer(UTPM(xd.copy()), UTPM(yd.copy())); ref = [numpy.outer(a, b) for a, b in zip(obj_mats(xd), obj_mats(yd))]
+                z = algopy.outer(mkU(xd), mkU(yd)); ref = [numpy.outer(a, b) for a, b in zip(obj_mats(xd), obj_mats(yd))]
             elif mix == 'Ua':
-                z = algopy.outer(UTPM(xd.copy()), yd[0, 0].copy()); ref = [numpy.outer(a, exact.const_to_obj(yd[0, 0], D)) for a in obj_mats(xd)]
+                z = algopy.outer(mkU(xd), yd[0, 0].copy()); ref = [numpy.outer(a, exact.const_to_obj(yd[0, 0], D)) for a in obj_mats(xd)]
             else:
-                z = algopy.outer(xd[0, 0].copy(), UTPM(yd.copy())); ref = [numpy.outer(exact.const_to_obj(xd[0, 0], D), b) for b in obj_mats(yd)]
+                z = algopy.outer(xd[0, 0].copy(), mkU(yd)); ref = [numpy.outer(exact.const_to_obj(xd[0, 0], D), b) for b in obj_mats(yd)]
             why = exact.compare(numpy.asarray(z.data), ref, F(0))
         except Exception as e:
             rep.violation('outer:%s:%s:exception:%s' % (mix, 'equal' if n1 == n2 else 'unequal-lengths', type(e).__name__),
@@ -197,7 +208,7 @@ def main(tier, seed):
         # ---- inv
         note_case('inv', dict(op='inv', **meta), D >= 2 and n >= 2)
         try:
-            Y = numpy.asarray(algopy.inv(UTPM(Ad.copy())).data)
+            Y = numpy.asarray(algopy.inv(mkU(Ad)).data)
             Yo = obj_mats(Y)
             eye = exact.const_to_obj(numpy.eye(n), D)
             r1 = max(ps_residual([numpy.dot(A_obj[p], Yo[p]) - eye]) for p in range(P))
@@ -217,18 +228,18 @@ def main(tier, seed):
         note_case('solve:' + mix, dict(op='solve', mix=mix, k=k, B=Bd.tolist(), **meta), D >= 2 and n >= 2)
         try:
             if mix == 'UU':
-                X = numpy.asarray(algopy.solve(UTPM(Ad.copy()), UTPM(Bd.copy())).data)
+                X = numpy.asarray(algopy.solve(mkU(Ad), mkU(Bd)).data)
                 res = max(ps_residual([numpy.dot(A_obj[p], obj_mats(X)[p]) - obj_mats(Bd)[p]]) for p in range(P))
                 mk = lambda p: '(solveU %d %d %s %s %s : seq (mx K))' % (n, k, serlit(Ad, p), mxlit(invs[p]), serlit(Bd, p))
             elif mix == 'aU':
                 A0 = bases[0]
-                X = numpy.asarray(algopy.solve(A0.copy(), UTPM(Bd.copy())).data)
+                X = numpy.asarray(algopy.solve(A0.copy(), mkU(Bd)).data)
                 Ac = exact.const_to_obj(A0, D)
                 res = max(ps_residual([numpy.dot(Ac, obj_mats(X)[p]) - obj_mats(Bd)[p]]) for p in range(P))
                 mk = lambda p: '(solveU_constA %d %d %s %s : seq (mx K))' % (n, k, mxlit(invs[0]), serlit(Bd, p))
             else:
                 b0 = Bd[0, 0]
-                X = numpy.asarray(algopy.solve(UTPM(Ad.copy()), b0.copy()).data)
+                X = numpy.asarray(algopy.solve(mkU(Ad), b0.copy()).data)
                 bc = exact.const_to_obj(b0, D)
                 res = max(ps_residual([numpy.dot(A_obj[p], obj_mats(X)[p]) - bc]) for p in range(P))
                 mk = lambda p: '(solveU_constb %d %d %s %s %s : seq (mx K))' % (n, k, serlit(Ad, p), mxlit(invs[p]), mxlit(b0))
@@ -246,17 +257,28 @@ def main(tier, seed):
         # ---- trace
         note_case('trace', dict(op='trace', **meta), D >= 2 and n >= 2)
         try:
-            tr = numpy.asarray(algopy.trace(UTPM(Ad.copy())).data)
+            tr = numpy.asarray(algopy.trace(mkU(Ad)).data)
             ref = [numpy.trace(a) for a in A_obj]
             why = exact.compare(tr, ref, F(0))
             if why:
                 rep.violation('trace', 'trace: %s' % why, dict(kind='trace', case=meta))
         except Exception as e:
             rep.violation('trace:exception', 'trace raises %r' % (e,), dict(kind='trace', case=meta, exc=repr(e)))
+        # ---- trace of rectangular matrices (tall with two or more extra rows, wide)
+        for rshp in [(n + 2, n), (n, n + 1), (n + 3, 1)]:
+            Rd = mat_utpm(rng, D, P, rshp[0], rshp[1])
+            note_case('trace:rectangular', dict(op='trace', shape=list(rshp), D=D, P=P), D >= 2)
+            try:
+                trr = numpy.asarray(algopy.trace(mkU(Rd)).data)
+                whyr = exact.compare(trr, [numpy.trace(a) for a in obj_mats(Rd)], F(0))
+                if whyr:
+                    rep.violation('trace:rectangular', 'trace of a %dx%d matrix polynomial: %s' % (rshp[0], rshp[1], whyr), dict(kind='trace', shape=list(rshp), A=Rd.tolist()))
+            except Exception as e:
+                rep.violation('trace:rectangular:exception', 'trace of a %dx%d matrix raises %r' % (rshp[0], rshp[1], e), dict(kind='trace', shape=list(rshp), exc=repr(e)))
         # ---- det, logdet
         note_case('det', dict(op='det', **meta), D >= 2 and n >= 2)
         try:
-            dt = numpy.asarray(algopy.det(UTPM(Ad.copy())).data)
+            dt = numpy.asarray(algopy.det(mkU(Ad)).data)
             ref = [leibniz_det(a, D) for a in A_obj]
             why = exact.compare(dt, ref, F(rtol) * F(scale) ** n)
             if why:
@@ -273,7 +295,7 @@ def main(tier, seed):
                     metas.append(dict(op='det', n=n, D=D, direction=p, model='detU'))
             neg = any(numpy.linalg.det(b) < 0 for b in bases)
             note_case('logdet', dict(op='logdet', negative_base_det=neg, **meta), D >= 2 and n >= 2)
-            ld = numpy.asarray(algopy.logdet(UTPM(Ad.copy())).data)
+            ld = numpy.asarray(algopy.logdet(mkU(Ad)).data)
             bad = None
             for p in range(P):
                 if not numpy.all(numpy.isfinite(ld[:, p])):
@@ -351,7 +373,7 @@ def check_expm(rep, algopy, rng, tier):
         rep.count('kind', 'expm')
         rep.case(('expm', json.dumps(meta, sort_keys=True)), D >= 2 and n >= 2, sample=dict(op='expm', n=n, D=D, P=P))
         try:
-            E = numpy.asarray(algopy.expm(UTPM(Ad.copy())).data)
+            E = numpy.asarray(algopy.expm(mkU(Ad)).data)
         except Exception as e:
             rep.violation('expm:exception', 'expm raises %r' % (e,), dict(kind='expm', case=meta, exc=repr(e)))
             continue
